@@ -54,3 +54,26 @@ def run(ctx, col, quals: tuple, rule: str = "R-RTOL"):
                     f"visible distance apart pass as coincident", stmt="rtol-pos", definite=True)
     col.ok(rule, "rtol-scan", "", f"{len(quals)} functions looked at for relative-tolerance comparisons of positions", f"{hits} hit(s)", stmt="rtol-scan")
     return hits
+
+
+def run_conjoined(ctx, col, quals: tuple, rule: str = "R-RTOL"):
+    """Variant for the volumetric primitives: a centre comparison with the default relative tolerance is admitted only while it is
+    conjoined (`and`) with the comparison of the radii of the same end -- then it merely tells which end of a frustum a sphere known
+    to sit on one of them belongs to.  Alone, it decides by position only, and far from the origin both ends of a short frustum pass."""
+    col.rule(rule, "in the volumetric primitives a centre is compared with a relative tolerance only together with the radius of the same end "
+             "(`allclose(c, end.c) and allclose(r, end.r)`): a centre comparison standing alone would, far from the coordinate origin, hold for "
+             "both ends of a short frustum, and the wrong end's closed form would be used; zero expected", floor=1)
+    hits = 0
+    for q in quals:
+        d = ctx.repo.get_def(q)
+        for c in find(d):
+            par = ctx.repo.parent(c)
+            ok = isinstance(par, ast.BoolOp) and isinstance(par.op, ast.And) and any(
+                v is not c and isinstance(v, ast.Call) and (dotted(v.func) or "").endswith(("allclose", "isclose")) for v in par.values)
+            if not ok:
+                hits += 1
+                col.bad(rule, d.qualname, d.loc(c), "a centre comparison with a relative tolerance is conjoined with the radius comparison",
+                        f"`{norm_src(c)[:80]}` stands alone: with the default rtol=1e-5 both ends of a frustum whose length is below 1e-5 of its distance from the "
+                        f"origin pass, and the end is chosen by the order of the tests, not by the geometry", stmt="rtol-alone", definite=True)
+    col.ok(rule, "rtol-scan", "", f"{len(quals)} functions looked at for centre comparisons standing alone", f"{hits} hit(s)", stmt="rtol-scan")
+    return hits
